@@ -281,6 +281,13 @@ def fmt_trace(trace):
             lines.append('I:' + ''.join(' %d' % e for e in t[0]) + ' -> %d' % t[1])
     return lines
 
+def _limit_child():
+    # a generated program that spins (a broken PT_CALL, say) must die on its own even if this worker is killed
+    import resource
+    resource.setrlimit(resource.RLIMIT_CPU, (8, 8))
+    resource.setrlimit(resource.RLIMIT_FSIZE, (1 << 24, 1 << 24))
+
+
 # ----------------------------------------------------------------------------- one program
 class Runner:
     def __init__(self, repo, build):
@@ -304,7 +311,7 @@ class Runner:
         got = None
         for attempt in range(2):  # a wall-clock timeout is only believed if it repeats (the reference finished in <= 4000 events)
             try:
-                rr = subprocess.run([base], stdout=subprocess.PIPE, stderr=subprocess.STDOUT, text=True, timeout=5)
+                rr = subprocess.run([base], stdout=subprocess.PIPE, stderr=subprocess.STDOUT, text=True, timeout=5, preexec_fn=_limit_child)
                 got = rr.stdout.splitlines()
                 if rr.returncode not in (0, 3):
                     got.append('(exit status %d)' % rr.returncode)
